@@ -1553,6 +1553,14 @@ def idiv(info, a):
         e.append(ExprAff(s2, c_d))
     return e
 
+def extend_byte(x, signed):
+    # 8-bit expression -> 16 bits
+    if signed:
+        hi = ExprCond(get_op_msb(x), ExprInt(uint8(0xff)), ExprInt(uint8(0)))
+    else:
+        hi = ExprInt(uint8(0))
+    return ExprCompose([(x, 0, 8), (hi, 8, 16)])
+
 #XXX size to do; eflag
 def mul(info, a):
     e= []
@@ -1583,18 +1591,27 @@ def mul(info, a):
                                       ExprInt32(0))))
 
     elif a.get_size() == 8:
-        c = ExprOp('umul08', eax, a)
+        # ax = al * a: the 16-bit product of the zero-extended bytes; the
+        # flags tell whether its high byte is significant
+        c = ExprOp('*', extend_byte(r_al, False), extend_byte(a, False))
         e.append(ExprAff(eax[:16], c))
-        e.append(ExprAff(of, ExprCond(eax[8:16],
+        e.append(ExprAff(of, ExprCond(c[8:16],
                                       ExprInt32(1),
                                       ExprInt32(0))))
-        e.append(ExprAff(cf, ExprCond(eax[8:16],
+        e.append(ExprAff(cf, ExprCond(c[8:16],
                                       ExprInt32(1),
                                       ExprInt32(0))))
 
 
 
     return e
+
+def imul_lost(c_hi, c_lo):
+    # non-zero when the signed double-width product c_hi:c_lo is not the
+    # sign extension of its low half (CF = OF = 1)
+    return ExprOp('-', c_hi, ExprCond(get_op_msb(c_lo),
+                                      ExprInt_from(c_lo, -1),
+                                      ExprInt_from(c_lo, 0)))
 
 def imul(info, a, b = None, c = None):
     e= []
@@ -1604,28 +1621,36 @@ def imul(info, a, b = None, c = None):
             c_lo = ExprOp('imul32_lo', eax, a)
             e.append(ExprAff(edx, c_hi))
             e.append(ExprAff(eax, c_lo))
-            e.append(ExprAff(cf, ExprCond(c_hi, ExprInt32(1), ExprInt32(0))))
-            e.append(ExprAff(of, ExprCond(c_hi, ExprInt32(1), ExprInt32(0))))
+            lost = imul_lost(c_hi, c_lo)
+            e.append(ExprAff(cf, ExprCond(lost, ExprInt32(1), ExprInt32(0))))
+            e.append(ExprAff(of, ExprCond(lost, ExprInt32(1), ExprInt32(0))))
         elif a.get_size() == 16:
             c_hi = ExprOp('imul16_hi', r_ax, a)
             c_lo = ExprOp('imul16_lo', r_ax, a)
             e.append(ExprAff(r_dx, c_hi))
             e.append(ExprAff(r_ax, c_lo))
-            e.append(ExprAff(cf, ExprCond(c_hi, ExprInt32(1), ExprInt32(0))))
-            e.append(ExprAff(of, ExprCond(c_hi, ExprInt32(1), ExprInt32(0))))
+            lost = imul_lost(c_hi, c_lo)
+            e.append(ExprAff(cf, ExprCond(lost, ExprInt32(1), ExprInt32(0))))
+            e.append(ExprAff(of, ExprCond(lost, ExprInt32(1), ExprInt32(0))))
         elif a.get_size() == 8:
-            c = ExprOp('imul08', eax, a)
+            # ax = al * a, signed: the 16-bit product of the sign-extended
+            # bytes; the flags tell whether it fits in al
+            c = ExprOp('*', extend_byte(r_al, True), extend_byte(a, True))
             e.append(ExprAff(eax[:16], c))
-            e.append(ExprAff(cf, ExprCond(c-eax[:16], ExprInt32(1), ExprInt32(0))))
-            e.append(ExprAff(of, ExprCond(c-eax[:16], ExprInt32(1), ExprInt32(0))))
+            lost = ExprOp('-', c, extend_byte(c[:8], True))
+            e.append(ExprAff(cf, ExprCond(lost, ExprInt32(1), ExprInt32(0))))
+            e.append(ExprAff(of, ExprCond(lost, ExprInt32(1), ExprInt32(0))))
     else:
         if c is None:
             c = b
             b = a
+        # the destination gets the low half of the signed product
+        lost = imul_lost(ExprOp('imul%d_hi' % a.get_size(), b, c),
+                         ExprOp('imul%d_lo' % a.get_size(), b, c))
         c = ExprOp('*', b, c)
         e.append(ExprAff(a, c))
-        e.append(ExprAff(cf, ExprCond(c[16:], ExprInt32(1), ExprInt32(0))))
-        e.append(ExprAff(of, ExprCond(c[16:], ExprInt32(1), ExprInt32(0))))
+        e.append(ExprAff(cf, ExprCond(lost, ExprInt32(1), ExprInt32(0))))
+        e.append(ExprAff(of, ExprCond(lost, ExprInt32(1), ExprInt32(0))))
     return e
 
 def cdq(info):
